@@ -683,7 +683,15 @@ func (r *Replica) addReference(ev J, ref *RefResult, tx *rctypes.Trx, resp abcit
 	r.App.Core.VerifView().Acct.VerifLedger().VerifConsensusView(func(k ledger.LedgerKey, ac *rctypes.Account) {
 		ad := ac.Address
 		if len(ad) != 20 {
-			ad = k[:20] // the record is found under the key of the padded address (see seedFromNative)
+			// the record is found under the key of the padded address (see seedFromNative); a record whose key is not
+			// that of any 20-byte address (left by a refused transaction with an over-long receiver field) is out of
+			// the EVM's reach
+			for _, b := range k[20:] {
+				if b != 0 {
+					return
+				}
+			}
+			ad = k[:20]
 		}
 		addrs[r.KR.NameAddr(ac.Address)] = append([]byte{}, ad...)
 	})
